@@ -42,6 +42,9 @@ def run_check(P, tier, replay=None):
         pf = None
         if proofs_ok:
             pf = core.check_property_file(P.PROPERTY_FILE)
+        chk = None
+        if proofs_ok and tier == 'thorough' and not replay and pf and not pf['rc']:
+            chk = core.coqchk(P.PROPERTY_FILE)
     if not proofs_ok:
         build_log = (build_log or '') + proofs_log
     hyg = core.hygiene()
@@ -58,6 +61,10 @@ def run_check(P, tier, replay=None):
         discharged += pf['discharged']
     else:
         obligations += ['property-file:' + P.PROPERTY_FILE]
+    if chk is not None:
+        obligations.append('coqchk-independent-recheck')
+        if chk[0]:
+            discharged.append('coqchk-independent-recheck')
     broken = [o for o in obligations if o not in discharged]
 
     # 4. cases on the implementation
@@ -197,6 +204,9 @@ def run_check(P, tier, replay=None):
                        "  (Print Assumptions after every theorem)",
         'trusted_base': core.TRUSTED_BASE + list(getattr(P, 'TRUSTED_EXTRA', [])),
         'axioms_per_theorem': pf['axioms'] if pf else {},
+        'coqchk': (None if chk is None else
+                   {'ok': chk[0], 'axioms': chk[1], 'seconds': round(chk[2], 1),
+                    'cmd': 'coqchk -silent -o -Q . QV QV.' + P.PROPERTY_FILE[:-2].replace('/', '.')}),
         'evaluations': len(cases),
         'distinct_nontrivial': len(nontrivial),
         'rule': P.RULE,
